@@ -187,6 +187,7 @@ func runC01(c *wk.Ctx) {
 			sub = typed[int(idx/25)%len(typed)]
 		} else {
 			cfg := gen.Full()
+			cfg.TypedVariants = true
 			cfg.WeirdBounds = r.Chance(30)
 			var shape *gen.Shape
 			switch r.Intn(6) {
